@@ -300,6 +300,12 @@ pub fn swap_board(b: &rm::Board) -> rm::Board {
 
 /// FS: curated full-board seeds from /verif/seeds/*.txt, each as written, mirrored, colour-swapped and both, for both sides.
 pub fn fs(dir: &std::path::Path) -> Family {
+    fs_with(dir, true)
+}
+
+/// `all_variants` = false: seeds from files named generated*.txt are used as written only (x 2 sides); the hand-made
+/// ones always in all four orientations.
+pub fn fs_with(dir: &std::path::Path, all_variants: bool) -> Family {
     let mut boards: Vec<(rm::Board, String)> = Vec::new();
     let mut files: Vec<_> = std::fs::read_dir(dir).map(|d| d.filter_map(|e| e.ok()).map(|e| e.path()).collect::<Vec<_>>()).unwrap_or_default();
     files.sort();
@@ -340,16 +346,24 @@ pub fn fs(dir: &std::path::Path) -> Family {
             }
         }
     }
-    let n = boards.len() as u64 * 8;
+    // expand to (board index, variant) pairs
+    let mut items: Vec<(usize, u64)> = vec![];
+    for (i, (_, name)) in boards.iter().enumerate() {
+        let nvar = if all_variants || !name.starts_with("generated") { 4 } else { 1 };
+        for v in 0..nvar {
+            items.push((i, v));
+        }
+    }
+    let n = items.len() as u64 * 2;
     Family {
-        name: format!("FS ({} curated full-board seeds x (as written, mirrored, colour-swapped, both) x 2 sides; odd roots parsed with from_str)", boards.len()),
+        name: format!("FS ({} curated full-board seeds{}, x 2 sides = {} roots; odd roots parsed with from_str)", boards.len(), if all_variants { " x (as written, mirrored, colour-swapped, both)" } else { ": hand-made ones x (as written, mirrored, colour-swapped, both), generated ones as written" }, n),
         n,
         how: 2,
         setups: None,
         decode: Box::new(move |idx| {
             let side = idx % 2 == 0;
-            let variant = (idx / 2) % 4;
-            let (b, _) = &boards[(idx / 8) as usize];
+            let (bi, variant) = items[(idx / 2) as usize];
+            let (b, _) = &boards[bi];
             let b = match variant {
                 0 => *b,
                 1 => mirror_board(b),
@@ -402,16 +416,38 @@ pub fn fsetup(n_gold: usize, n_silver: usize) -> Family {
     }
 }
 
-/// The first `k` seeds of FS as written, Gold to move only (for the two-turn exploration FS2).
+/// The first `k` diagrams of seeds/handmade.txt (the opening positions) as written, Gold to move only (for FS2).
 pub fn fs_first(dir: &std::path::Path, k: usize) -> Family {
-    let full = fs(dir);
-    let n = (k as u64).min(full.n / 8);
+    let text = std::fs::read_to_string(dir.join("handmade.txt")).unwrap_or_default();
+    let mut boards: Vec<rm::Board> = vec![];
+    let mut cur = String::new();
+    let mut chunks = vec![];
+    for l in text.lines() {
+        if l.starts_with('#') {
+            if !cur.trim().is_empty() {
+                chunks.push(cur.clone());
+            }
+            cur.clear();
+        } else {
+            cur.push_str(l);
+            cur.push('\n');
+        }
+    }
+    if !cur.trim().is_empty() {
+        chunks.push(cur);
+    }
+    for c in chunks.iter().take(k) {
+        if let Ok((b, _, _)) = board_from_diagram(c) {
+            boards.push(b);
+        }
+    }
+    let n = boards.len() as u64;
     Family {
-        name: format!("the first {} opening seeds as written, Gold to move", n),
+        name: format!("the first {} opening seeds of seeds/handmade.txt as written, Gold to move", n),
         n,
         how: 0,
         setups: None,
-        decode: Box::new(move |idx| (full.decode)(idx * 8)),
+        decode: Box::new(move |idx| Some((boards[idx as usize], true))),
     }
 }
 
